@@ -89,6 +89,13 @@ def is_concrete(v):
     return True
 
 
+_CMP = {
+    ast.Eq: lambda a, b: a == b, ast.NotEq: lambda a, b: a != b, ast.Lt: lambda a, b: a < b, ast.LtE: lambda a, b: a <= b,
+    ast.Gt: lambda a, b: a > b, ast.GtE: lambda a, b: a >= b, ast.In: lambda a, b: a in b, ast.NotIn: lambda a, b: a not in b,
+    ast.Is: lambda a, b: a is b, ast.IsNot: lambda a, b: a is not b,
+}
+
+
 def ev(node, env=None, strict=False):
     """Evaluate node.  env maps names to values.  strict=True raises AnalysisError on opaque parts."""
     env = env or {}
@@ -195,6 +202,32 @@ def ev(node, env=None, strict=False):
                 return fail(n, str(e))
         if isinstance(n, ast.JoinedStr):
             return fail(n, "f-string")
+        if isinstance(n, ast.Compare):
+            left = go(n.left)
+            for op, c in zip(n.ops, n.comparators):
+                right = go(c)
+                if isinstance(left, (Opaque, NameRef)) or isinstance(right, (Opaque, NameRef)) or type(op) not in _CMP:
+                    return fail(n, "opaque comparison")
+                try:
+                    if not _CMP[type(op)](left, right):
+                        return False
+                except Exception as e:  # noqa
+                    return fail(n, f"{type(e).__name__}: {e}")
+                left = right
+            return True
+        if isinstance(n, ast.BoolOp):
+            vals = [go(v) for v in n.values]
+            if any(isinstance(v, (Opaque, NameRef)) for v in vals):
+                return fail(n, "opaque boolean operand")
+            r_ = vals[0]
+            for v in vals[1:]:
+                r_ = (r_ and v) if isinstance(n.op, ast.And) else (r_ or v)
+            return r_
+        if isinstance(n, ast.IfExp):
+            t = go(n.test)
+            if isinstance(t, (Opaque, NameRef)):
+                return fail(n, "opaque test")
+            return go(n.body) if t else go(n.orelse)
         return fail(n, type(n).__name__)
 
     return go(node)
